@@ -207,6 +207,8 @@ pub struct Model<'a> {
     drain_started: bool,
     stuck_reported: bool,
     last_qp_idx: usize,
+    /// per unary Acknowledge call: what was known about each named lease before the call
+    ack_prior: HashMap<CallId, Vec<(usize, u64, bool)>>,
     token_format_ok: bool,
 }
 
@@ -561,7 +563,6 @@ impl<'a> Model<'a> {
             None => return snap,
         };
         let now = self.now;
-        let _ = call;
         let mut any_live = false;
         let mut any_dead = false;
         for a in ids {
@@ -573,6 +574,9 @@ impl<'a> Model<'a> {
                         found = true;
                         let live = now < *lo;
                         let window = now >= *lo && now <= *hi;
+                        if let Some(c) = call {
+                            self.ack_prior.entry(c).or_default().push((si, *k, *maybe_acked));
+                        }
                         *maybe_acked = true;
                         snap.push((si, *k, live, window));
                         if live {
@@ -1271,14 +1275,31 @@ impl<'a> Model<'a> {
                         (Some(tg), Some(cu)) if tg != cu && self.subs[cu].ci > c.invoke_idx => {
                             self.subs[tg].del_r = Some(idx);
                         }
-                        (None, Some(cu)) if self.subs[cu].ci > c.invoke_idx => {}
+                        (None, Some(cu)) if self.subs[cu].ci > c.invoke_idx => {
+                            // no instance was known when this delete was made, yet it succeeded:
+                            // what it removed is the instance created while it was in flight
+                            // (unless the state of the name was not known to begin with)
+                            if !n.unknown {
+                                if self.subs[cu].del_i.is_none() {
+                                    self.subs[cu].del_i = Some(c.invoke_idx);
+                                }
+                                self.subs[cu].del_r = Some(idx);
+                                n.inst = None;
+                            }
+                        }
                         _ => {
                             if let Some(i) = target.or(cur) {
                                 self.subs[i].del_r = Some(idx);
                             }
+                            // a create of the name that was abandoned (or is still in flight) after
+                            // this delete was made may have taken effect after it: then the name's
+                            // state stays undetermined
+                            let later_create = self.tr.calls.iter().any(|o| {
+                                matches!(&o.req, Req::CreateSub { name: cn, .. } if cn == name) && o.invoke_idx < idx && (o.aborted.map(|a| a.0 > c.invoke_idx).unwrap_or(false) || (o.done.is_none() && o.aborted.is_none()) || o.done.as_ref().map(|d| d.0 > idx).unwrap_or(false))
+                            });
                             let n = self.snames.get_mut(name).unwrap();
                             n.inst = None;
-                            n.unknown = false;
+                            n.unknown = later_create;
                         }
                     }
                 } else if code != 5 && code != 3 {
@@ -1411,10 +1432,23 @@ impl<'a> Model<'a> {
                     let normed: Vec<String> = ack_ids.iter().map(|a| norm_ack(a)).collect();
                     self.apply_ack_return(&snap, &normed);
                 } else if code == 3 {
-                    // rejected: nothing may have been applied
+                    // rejected: nothing may have been applied - by this request; another
+                    // acknowledgement of the same delivery may still be on its way (a control
+                    // message not yet processed, an overlapping Acknowledge)
                     for (si, k, _, _) in &snap {
+                        let other_in_flight = match self.subs[*si].msgs.get(k) {
+                            Some(Ms::Leased { ack, .. }) => {
+                                self.subs[*si].pending_ctrl.iter().any(|p| p.2.contains(ack)) || self.subs[*si].mutations.iter().any(|m| m.1 > idx && m.2.contains(ack))
+                            }
+                            _ => false,
+                        };
+                        if other_in_flight {
+                            continue;
+                        }
+                        // back to what was known before this request was made
+                        let prior = self.ack_prior.get(&call).and_then(|v| v.iter().find(|p| p.0 == *si && p.1 == *k).map(|p| p.2)).unwrap_or(false);
                         if let Some(Ms::Leased { maybe_acked, .. }) = self.subs[*si].msgs.get_mut(k) {
-                            *maybe_acked = false;
+                            *maybe_acked = prior;
                         }
                     }
                 } else {
@@ -1704,6 +1738,11 @@ impl<'a> Model<'a> {
                     for (_, st) in s.msgs.iter_mut() {
                         if matches!(st, Ms::Queued { .. }) {
                             *st = if racing_ack { Ms::Maybe } else { Ms::MaybeLeased };
+                        } else if racing_ack && matches!(st, Ms::MaybeLeased) {
+                            // possibly in the backlog still (only "maybe" taken by an earlier
+                            // abandoned call): this abandoned call may take it, and the racing
+                            // acknowledgement may name the lease it is given
+                            *st = Ms::Maybe;
                         }
                     }
                 }
